@@ -207,7 +207,7 @@ func hostKind(h string) string {
 
 func TestCheck(t *testing.T) {
 	r := vp.New("C20", "exploration",
-		"URL round trip: nested loops over scheme x host x port x path (paths: every sequence of <=N symbols over all printable ASCII characters, 'é', '%2F', '%25', '//' after a leading '/'); URLs given as text and parsed with net/url: every printable ASCII character and 'é' written as a percent-escape in upper- and lower-case hex, alone, inside segments and in ordered pairs (the decoded path is what has to survive); a case is non-trivial when it has a port or a path; distinct = distinct (scheme,host,port,path). Helpers: every list of length <=4 over a 27-address alphabet (public, private, loopback, unspecified, localhost; the IP followed by tcp, udp, sctp, tls, http or nothing; http after tls/sni and before /p2p; ws / wss, which are not http) incl. nil and duplicates, all pairs of lists of length <=3 for equality.",
+		"URL round trip: nested loops over scheme x host x port x path (paths: every sequence of <=N symbols over all printable ASCII characters, 'é', '%2F', '%25', '//' after a leading '/'); URLs given as text and parsed with net/url: every printable ASCII character and 'é' written as a percent-escape in upper- and lower-case hex, alone, inside segments and in ordered pairs (the decoded path is what has to survive); a case is non-trivial when it has a port or a path; distinct = distinct (scheme,host,port,path). Helpers: every list of length <=4 over a 27-address alphabet (public, private, loopback, unspecified, localhost; the IP followed by tcp, udp, sctp, tls, http or nothing; http after tls/sni and before /p2p; ws / wss, which are not http) incl. nil and duplicates, all pairs of lists of length <=3 for equality; what FindHTTPAddrs and FilterPublic selected must read the same after the caller has overwritten its own list.",
 		"URLs are built as url.URL{Scheme,Host,Path} values, and (section 2b) parsed from text; hosts are limited to 3 IPv4, 3 IPv6 (no zone, not v4-mapped) and 3 DNS names",
 		"IPv6 hosts are compared as IP values, not as text",
 		"FilterPublic: link-local and other special ranges that are neither loopback, private (net.IP.IsPrivate) nor unspecified are accepted either way; nothing is required of nil entries",
@@ -411,6 +411,11 @@ var addrAlphabet = []addrSym{
 	{s: "", http: false}, // nil entry
 }
 
+var (
+	nonHTTPFiller = multiaddr.StringCast("/ip4/9.9.9.9/udp/9/quic-v1")
+	privateFiller = multiaddr.StringCast("/ip4/10.255.255.1/tcp/1")
+)
+
 func checkHelpers(r *vp.Recorder) {
 	n := len(addrAlphabet)
 	mas := make([]multiaddr.Multiaddr, n)
@@ -515,15 +520,33 @@ func checkHelpers(r *vp.Recorder) {
 			}
 		}
 		var got []multiaddr.Multiaddr
-		if p, m := vp.Guard(func() { got = mautil.FindHTTPAddrs(mk(l)) }); p {
+		arg := mk(l)
+		if p, m := vp.Guard(func() { got = mautil.FindHTTPAddrs(arg) }); p {
 			r.Violation("FindHTTPAddrs:panic", key, m, nil)
 		} else if multiset(got) != multiset(wantHTTP) {
 			r.Violation("FindHTTPAddrs:wrong-set", key, fmt.Sprintf("FindHTTPAddrs(%v) = %v, want %v", mk(l), got, wantHTTP), nil)
+		} else {
+			// the list is the caller's and the caller goes on using it: what
+			// was selected from it stays what it was
+			for i := range arg {
+				arg[i] = nonHTTPFiller
+			}
+			if multiset(got) != multiset(wantHTTP) {
+				r.Violation("FindHTTPAddrs:selection-changes-when-the-caller-reuses-its-list", key, fmt.Sprintf("after the caller overwrote its own list the selection made from %v reads %v", mk(l), got), nil)
+			}
 		}
 		// FilterPublic
-		if p, m := vp.Guard(func() { got = mautil.FilterPublic(mk(l)) }); p {
+		arg = mk(l)
+		if p, m := vp.Guard(func() { got = mautil.FilterPublic(arg) }); p {
 			r.Violation("FilterPublic:panic", key, m, nil)
 		} else {
+			before := multiset(got)
+			for i := range arg {
+				arg[i] = privateFiller
+			}
+			if multiset(got) != before {
+				r.Violation("FilterPublic:selection-changes-when-the-caller-reuses-its-list", key, fmt.Sprintf("after the caller overwrote its own list the selection made from %v reads %v", mk(l), got), nil)
+			}
 			gotSet := map[string]int{}
 			for _, a := range got {
 				if a != nil {
